@@ -107,22 +107,30 @@ pub(crate) fn ref_opt_hdr(delta: u32, len: u32, out: &mut [u8; 5]) -> usize {
 }
 
 /// Shortest big-endian representation of `v` (RFC 7252 section 3.2 uint): returns (bytes, len).
+/// Written without loops so that harnesses using it need no extra unwinding.
 pub(crate) fn ref_uint(v: u64) -> ([u8; 8], usize) {
-    let mut n = 0usize;
-    let mut t = v;
-    while t > 0 {
-        n += 1;
-        t >>= 8;
-    }
-    let mut out = [0u8; 8];
-    let mut k = 0;
-    while k < 8 {
-        if k < n {
-            out[k] = (v >> (8 * (n - 1 - k))) as u8;
-        }
-        k += 1;
-    }
-    (out, n)
+    let n: usize = if v == 0 {
+        0
+    } else if v < 1 << 8 {
+        1
+    } else if v < 1 << 16 {
+        2
+    } else if v < 1 << 24 {
+        3
+    } else if v < 1 << 32 {
+        4
+    } else if v < 1 << 40 {
+        5
+    } else if v < 1 << 48 {
+        6
+    } else if v < 1 << 56 {
+        7
+    } else {
+        8
+    };
+    // left-align the n significant bytes
+    let be = if n == 0 { [0u8; 8] } else { (v << (8 * (8 - n) as u32)).to_be_bytes() };
+    (be, n)
 }
 
 /// Harness-only constructor: place an entry in the next slot. With the container model this is
